@@ -187,6 +187,21 @@ func (c *FnCtx) ghostIntrinsic(fr *Frame, st *State, fn *ssa.Function, args []*T
 			unsupported("verifVisited: no map-range loop #%v known at this point", k)
 		}
 		return []*Term{ts.Select(c.getCell(st, c.curFrame.iterByLoop[int(k)].visited), args[1])}, true
+	case "verifLoopSame": // map m has exactly the entries it had when the loop with the given ordinal was entered
+		k, ok := args[0].IntLit()
+		if !ok || c.curFrame == nil {
+			unsupported("verifLoopSame needs a literal loop ordinal")
+		}
+		ent := c.curFrame.loopEntry[int(k)]
+		if ent == nil {
+			// establishing the invariant on entry: the loop-entry state is the current one
+			return []*Term{ts.Bool(true)}, true
+		}
+		mh := c.mapHeaps(st, types.NewMap(types.Typ[types.String], types.NewInterfaceType(nil, nil)))
+		return []*Term{ts.And(
+			ts.Eq(c.hget(st, mh.dom, mh.sdom, args[1]), c.hget(ent, mh.dom, mh.sdom, args[1])),
+			ts.Eq(c.hget(st, mh.sel, mh.ssel, args[1]), c.hget(ent, mh.sel, mh.ssel, args[1])),
+			ts.Eq(c.hget(st, mh.ln, mh.sln, args[1]), c.hget(ent, mh.ln, mh.sln, args[1])))}, true
 	case "verifIsNaN":
 		return []*Term{ts.UF("f64!isnan", SBool, args[0])}, true
 	case "verifIsInf":
